@@ -48,6 +48,10 @@ FR_QUICK = [
 FR_THOROUGH = FR_QUICK + [S(1, o) for o in seqs18(6, 3, 4)] + [S(2, o) for o in seqs123(6, 3, 4)] + [S(2, o) for o in seqs18(6, 3, 4)] + \
   [S(c, o, NESTB=b, NESTS=s) for c, o in ((1, '1,1,8,1,8'), (1, '1,8,1,8'), (2, '1,1,2,1,3'), (2, '1,8,1,8')) for b, s in ((1, 0), (0, 1), (2, 2), (3, 1))] + \
   [S(c, o, AVAIL=a) for c, a in ((1, 2), (1, 3), (2, 3)) for o in ('4,2,2,2,2', '1,4,2,2,2,2', '1,4,3,2,2,2', '4,1,2,2,2', '4,2,1,2,2,2', '1,1,4,2,3,2,2', '4,2,2,5,2,2')]
+# reset_reuse family: drive the node into a mid-protocol state, cancel (5), wait_for_all + graph::reset() (12 default flags, 13 RESETFLAGS), reuse
+FQ_RESET = [S(1, '1,1,1,5,12,1,1,2,2', FIFO=1), S(2, '1,1,1,5,12,1,1,1,2,3,2'), S(1, '1,1,2,5,13,9,1,1,2,2', FIFO=1, RESETFLAGS=3), S(2, '6,1,1,8,5,12,1,8', EXTIN=1)]
+FR_RESET = [S(1, '4,5,12,4,2,2,2', AVAIL=2), S(1, '1,4,1,5,12,1,4,2,2,2', AVAIL=2), S(2, '1,4,2,5,12,4,2,3,2,2', AVAIL=3), S(2, '1,1,1,5,12,1,1,1,2,2'),
+            S(1, '1,4,5,13,9,4,1,2,2,2', AVAIL=2, RESETFLAGS=2), S(1, '1,4,2,5,13,1,2,4,2,2', AVAIL=3, RESETFLAGS=1)]
 FL_QUICK = [S(1, '1,1,8,1', NESTB=1), S(2, '1,1,8,1', NESTB=3), S(0, '1,1', NESTB=1)]
 FL_THOROUGH = FL_QUICK + [fifo(S(c, o, NESTB=b)) for c in (1, 0) for o in ('1,1,8,1,8', '1,8,1,1,8,8', '1,1,1,8,8') for b in (0, 1, 2, 5)] + \
   [S(2, o, NESTB=b) for o in ('1,1,2,1,3', '1,3,1,1,2,2', '1,1,1,8,8', '1,1,1,3,2') for b in (0, 1, 2, 5)]
@@ -55,17 +59,18 @@ FNODE_ORACLE = ('conservation ledger per message (try_put true or pulled <=> bod
   'rejected => never processed; payload intact), bodies running at once and live body tasks + inline bodies <= concurrency at every body start / task creation, '
   'truthful try_put (queueing: always true; rejecting: true iff a slot is free), graph wait count == live tasks (direct and through the worker\'s '
   'd1::reference_vertex) + reserve_wait calls at every observation point and 0 iff nothing pending, every live task spawned, cancelled tasks start no body '
-  'and still release the wait count, at quiescence everything accepted is processed, queue empty, slot count 0')
+  'and still release the wait count, at quiescence everything accepted is processed, queue empty, slot count 0; after graph::reset() concurrency count, input queue, '
+  'forwarder_busy and cached predecessors are initial again (cached predecessor edge handed back, or dropped with rf_clear_edges) and the reused node passes the same oracles')
 FNODE_BOUNDS = {'messages': 'quick <= 4 external try_puts (+ nested / pulled ones), thorough <= 5', 'concurrency': '1, 2, unlimited (concrete per query)',
   'task order': 'each "8" picks oldest or newest symbolically; 2/3 concrete', 'successors': '1-2; answers symbolic (no flip) or concrete patterns (flip)',
   'values': 'symbolic 32-bit, pairwise distinct', 'threads': 'one at a time (tasks and calls atomic); overlap only as re-entrant puts inside body / successor'}
 def FN(name, unit, rej, quick, thorough, what):
     return dict(COMMON, name=name, unit=unit, harness='h_fnode.c', defines={'memset': 'vp_memset', 'REJ': rej}, scenarios_quick=quick, scenarios_thorough=thorough,
                 desc=what + ': driven by a concrete list of external try_puts, task executions (oldest / newest / solver-chosen), predecessor registration, '
-                'cancel, reserve_wait/release_wait, re-entrant puts during a body or a successor offer. Oracle: ' + FNODE_ORACLE, bounds=FNODE_BOUNDS)
+                'cancel, reserve_wait/release_wait, re-entrant puts during a body or a successor offer, and cancel + wait_for_all + real graph::reset() (default flags, rf_reset_bodies, rf_clear_edges) followed by reuse. Oracle: ' + FNODE_ORACLE, bounds=FNODE_BOUNDS)
 HARNESSES = [
-  FN('fnode_queueing', 'fq', 0, FQ_QUICK, FQ_THOROUGH, 'function_node<int,int,queueing> (input queue, apply_body_task_bypass, broadcast_cache, edge flip of a rejecting successor)'),
-  FN('fnode_rejecting', 'fr', 1, FR_QUICK, FR_THOROUGH, 'function_node<int,int,rejecting> (rejection when no slot is free; pull mode: predecessor_cache, forward_task_bypass, edge handed back when the predecessor is empty)'),
+  FN('fnode_queueing', 'fq', 0, FQ_QUICK + FQ_RESET, FQ_THOROUGH + FQ_RESET, 'function_node<int,int,queueing> (input queue, apply_body_task_bypass, broadcast_cache, edge flip of a rejecting successor)'),
+  FN('fnode_rejecting', 'fr', 1, FR_QUICK + FR_RESET, FR_THOROUGH + FR_RESET, 'function_node<int,int,rejecting> (rejection when no slot is free; pull mode: predecessor_cache, forward_task_bypass, edge handed back when the predecessor is empty)'),
   FN('fnode_queueing_lw', 'fql', 0, FL_QUICK + [S(1, '1,1,1,8,8', FIFO=1)], FL_THOROUGH, 'function_node<int,int,queueing_lightweight> with a noexcept body (occupy_concurrency + body inline in try_put)'),
   FN('fnode_rejecting_lw', 'frl', 1, FL_QUICK + [S(1, '4,8,8,8', AVAIL=2)], FL_THOROUGH + [S(c, o, AVAIL=2) for c in (1, 2) for o in ('4,8,8,8', '1,4,2,2,2')], 'function_node<int,int,rejecting_lightweight> with a noexcept body'),
   FN('fnode_lw_throwing_body', 'fql_t', 0, [S(1, '1,1,8,1,8', FIFO=1)], [fifo(S(c, o)) for c in (1, 2) for o in ('1,1,8,1,8', '1,1,1,8,8,8')], 'function_node<int,int,queueing_lightweight> whose body is not noexcept (must take the task path)'),
@@ -80,6 +85,7 @@ EQ_QUICK = [
   E('1,2,10,1,11,10,1,2,2', '0,1,2', '3'), E('1,2,20,1,30,2,20,31,20,2,1,2', '0', '1', nsucc=1), E('1,1,2,11,1,10,10,2,11,1,2', '0,2', '3,1'),
   E('1,2,1,40,2,10,41,1,2', '0,1', '1', MINFLIP=0), E('1,2,20,11,31,1,2,10', '0', '3'), E('1,2,2,40,50,2,2', '0,1', '0', MINFLIP=0), E('1,2,2,51,2,2', '0,2', '0', nsucc=1, MINFLIP=0),
 ]
+EQ_RESET = [E('1,2,20,60,1,2,10,1,2,2', '0,6', '1', nsucc=1), E('1,1,60,1,2,2,10,11', '0,1,4', '3', MINFLIP=0), E('1,2,1,60,1,2,1,2', '0,2', '1,0', MINFLIP=0)]
 EQ_THOROUGH = EQ_QUICK + [E('1,2,' + w, '0,1,2', '3,1', MINFLIP=0) for w in words(['1', '2', '10', '11'], 4)] + \
   [E('1,2,' + w, '0,2', '1', nsucc=1, MINFLIP=0) for w in words(['1', '2', '20', '30', '31'], 4, lambda q: '20' in q)]
 EBC_QUICK = [E('1,1,10,1,11,1', '0,5,2', '3,1,2'), E('1,10,1,11,10,1', '0,7', '7,5', nsucc=3), E('1,40,1,10,1', '0,1', '3,2', MINFLIP=0)]
@@ -90,13 +96,15 @@ IN_QUICK = [
   E('2,40,1,2,2,10,2', '1,2,0', '3', nsucc=0, NPROD=2, MINFLIP=0), E('1,2,41,2,2,11,2', '0,2,1', '3', nsucc=1, NPROD=2, MINFLIP=0), E('1,2,2,10,11,2,2', '1,2,0,3', '3', nsucc=2, NPROD=3, MINFLIP=0),
   E('1,2,20,11,31,2,2', '0', '3', nsucc=2, NPROD=2),
 ]
+IN_RESET = [E('1,2,20,60,1,2,2,2', '14,30', '1', nsucc=1, NPROD=2, NPROD2=2, EXPECTALL=1, MINFLIP=0), E('1,60,1,2,2,2', '15', '1', nsucc=1, NPROD=2, NPROD2=2, EXPECTALL=1, MINFLIP=0),
+            E('1,2,60,1,2,2,2', '14,15', '1', nsucc=1, NPROD=2, NPROD2=2, EXPECTALL=1, MINFLIP=0), E('1,2,2,20,11,60,1,2,2,2', '1020,1023', '3', nsucc=2, NPROD=3, NPROD2=2, EXPECTALL=1, MINFLIP=0)]
 IN_THOROUGH = IN_QUICK + [E('1,2,' + w, '0,1,2', '1', nsucc=1, NPROD=3, MINFLIP=0) for w in words(['2', '10', '20', '31'], 4)] + [E('1,2,20,30,' + w, '0', '1', nsucc=1, NPROD=2, MINFLIP=0) for w in words(['2', '10', '20', '30', '31'], 2)] + \
   [E(w + ',2,2', '1,0', '3', nsucc=0, NPROD=2, MINFLIP=0) for w in words(['1', '2', '40', '41', '10'], 4, lambda q: '1' in q and ('40' in q or '41' in q))]
 HARNESSES += [
-  dict(COMMON, name='edge_queue_node', unit='eq', harness='h_edge.c', defines={'memset': 'vp_memset', 'EK': 1}, scenarios_quick=EQ_QUICK, scenarios_thorough=EQ_THOROUGH,
+  dict(COMMON, name='edge_queue_node', unit='eq', harness='h_edge.c', defines={'memset': 'vp_memset', 'EK': 1}, scenarios_quick=EQ_QUICK + EQ_RESET, scenarios_thorough=EQ_THOROUGH + EQ_RESET,
        desc='queue_node<int> (round_robin_cache, item buffer, forward_task_bypass, aggregator handler) with 1-3 harness successors following the receiver protocol: reject / accept, '
             'take the edge over on rejection (register_predecessor true), pull later with try_get or try_reserve + try_consume|try_release, hand the edge back when a pull fails '
-            '(register_successor), remove_successor, late registration while messages are buffered. Oracle: nothing pushed along a pull-mode / removed edge; every delivery (accepted offer, successful try_get, consumed reservation) is the '
+            '(register_successor), remove_successor, late registration while messages are buffered, cancel + graph::reset() + reuse. Oracle: nothing pushed along a pull-mode / removed edge; every delivery (accepted offer, successful try_get, consumed reservation) is the '
             'oldest undelivered message => each message delivered exactly once to exactly one successor in FIFO order; nothing offered or handed out while reserved; failed pull leaves the '
             'buffer unchanged; after the edge is handed back and the tasks ran, the front message has been offered to every push-mode successor (no stuck message / lost hand-off); final '
             'drain returns exactly the undelivered messages; graph wait count == pending tasks',
@@ -108,9 +116,9 @@ HARNESSES += [
             'try_put always true, try_get / try_reserve never hand anything out',
        bounds={'operations': 'quick: 3 lists of 5-6 ops; thorough: all 5-op continuations over {put, pull s0, pull s1} (2 successors) and 4-op over {put, pull s0, pull s2, remove s1} (3 successors)',
                'accept / flip patterns': 'concrete, 2-4 x 2-3 per query', 'values': 'symbolic'}),
-  dict(COMMON, name='input_node', unit='inode', harness='h_inode.c', defines={'memset': 'vp_memset'}, scenarios_quick=IN_QUICK, scenarios_thorough=IN_THOROUGH,
+  dict(COMMON, name='input_node', unit='inode', harness='h_inode.c', defines={'memset': 'vp_memset'}, scenarios_quick=IN_QUICK + IN_RESET, scenarios_thorough=IN_THOROUGH + IN_RESET,
        desc='input_node<int> (activate, input_node_task_bypass, try_reserve_apply_body, cached item, broadcast_cache push with rejection / edge flip, try_get / try_reserve / try_release / '
-            'try_consume, late register_successor) with a harness body producing NPROD items then stopping. Oracle: body never invoked before activate(), nor while an unconsumed item is cached '
+            'try_consume, late register_successor, cancel + graph::reset() + activate again) with a harness body producing NPROD items then stopping. Oracle: body never invoked before activate(), nor while an unconsumed item is cached '
             '(no overwrite = no loss), nor under a reservation; every offer / hand-out is the outstanding item; offered only to push-mode successors, at most once each per attempt; consumed '
             'exactly when accepted / got / reservation consumed, never twice; a rejected or released item stays cached; production order kept; produced == consumed + cached at the end; '
             'graph wait count == pending tasks',
@@ -124,18 +132,21 @@ CH_QUICK = [
   {'CONC': 2, 'OPS': '1,1,1,1,2,3,3,2', 'EXPECTFLIP': 2}, {'CONC': 2, 'OPS': '1,2,1,2,1,3,1,3,3', 'EXPECTFLIP': 2}, {'CONC': 1, 'OPS': '1,1,2,2,5,1,2', 'FIFO': 1}, {'CONC': 0, 'OPS': '1,1,2,3,1'},
   {'CONC': 1, 'OPS': '1,1,2,9,2,2', 'FIFO': 1, 'LATEEDGE': 1}, {'CONC': 2, 'OPS': '1,2,1,1,9,3,2', 'LATEEDGE': 1},
 ]
+CH_RESET = [{'CONC': 1, 'OPS': '1,2,1,3,5,12,1,2,1,3,2,2,2', 'FIFO': 1, 'EXPECTFLIP': 2}, {'CONC': 2, 'OPS': '1,1,1,2,5,12,1,1,2,3,1,2,2,2', 'EXPECTFLIP': 1},
+            {'CONC': 1, 'OPS': '1,2,1,1,3,12,1,2,2,1,2,2', 'FIFO': 1, 'EXPECTFLIP': 1}, {'CONC': 2, 'OPS': '1,1,1,12,1,1,1,2,2,3,2,2'}]
 def chain_words(n): return ['1,' + w for w in words('123', n, lambda q: 1 + q.count('1') >= 2 and 1 + q.count('1') <= 4)]
 CH_THOROUGH = CH_QUICK + [{'CONC': 1, 'OPS': o, 'FIFO': 1} for o in chain_words(5) + chain_words(6)] + \
   [{'CONC': 2, 'OPS': o} for o in chain_words(5) + [w for w in chain_words(6) if w.count('1') == 4]] + [{'CONC': 0, 'OPS': o} for o in chain_words(5)] + \
   [{'CONC': c, 'OPS': o} for c in (1, 2) for o in ('1,1,2,5,2,3,1', '1,2,1,1,3,5,2,2')] + \
   [{'CONC': c, 'OPS': o, 'LATEEDGE': 1} for c in (1, 2) for o in ('1,9,2,2,1,2', '1,1,1,9,2,3,2', '1,2,9,1,2,2', '1,1,9,2,1,3,2,2')]
 HARNESSES += [
-  dict(COMMON, name='chain_queue_function', unit='chain', harness='h_chain.c', defines={'memset': 'vp_memset'}, scenarios_quick=CH_QUICK, scenarios_thorough=CH_THOROUGH,
+  dict(COMMON, name='chain_queue_function', unit='chain', harness='h_chain.c', defines={'memset': 'vp_memset'}, scenarios_quick=CH_QUICK + CH_RESET, scenarios_thorough=CH_THOROUGH + CH_RESET,
        desc='two real nodes and the real edge between them: queue_node<int> -> function_node<int,int,rejecting> -> harness sink (symbolic answers). The function_node rejects while its slots '
             'are taken, the queue_node\'s round_robin_cache hands the edge over (register_predecessor), the function_node pulls through its predecessor_cache when a body finishes and gives the '
             'edge back when the queue is empty (register_successor -> forwarder). Oracle: every message put to the queue reaches the body exactly once, payload intact, in put order when serial; '
             'live body tasks + running bodies <= concurrency; every output offered exactly once; the edge is held by exactly one side between operations; graph wait count == live tasks (worker '
-            'reference vertex); every live task spawned; at quiescence queue empty, everything processed, slot count 0, wait count 0; after cancel no body starts and the count still drains',
+            'reference vertex); every live task spawned; at quiescence queue empty, everything processed, slot count 0, wait count 0; after cancel no body starts and the count still drains; after cancel + wait_for_all + graph::reset() '
+            'both nodes are in their initial protocol state, the edge is back in push mode and the reused chain conserves the new messages',
        bounds={'messages': 'quick <= 4, thorough <= 4', 'concurrency': '1, 2, unlimited', 'operations': 'quick: 7 hand-picked lists; thorough: every list "put" + 5 ops over {put, run oldest task, run newest task} with 2-4 puts '
                '(serial, concurrency 2, unlimited), every such list with 6 more ops (serial; concurrency 2: those with 4 puts), late make_edge lists', 'task order': 'concrete (oldest / newest) per op', 'values': 'symbolic, pairwise distinct'}),
 ]
@@ -146,15 +157,18 @@ MANIFEST = dict(
              'operations (external try_put, execution of a spawned graph task chosen oldest / newest - symbolically where affordable -, predecessor / successor registration, pulls by a '
              'successor, cancel, reserve_wait / release_wait, re-entrant puts during a body) with symbolic message values and symbolic successor answers; the SAT solver decides a conservation '
              'ledger (accepted <=> processed exactly once <=> offered exactly once per push-mode successor; rejected / flipped => never pushed), the concurrency limit at every body start and '
-             'task creation, truthful try_put, and that the graph\'s wait count equals live tasks + reservations at every observation point (so wait_for_all returns exactly at idle).',
+             'task creation, truthful try_put, and that the graph\'s wait count equals live tasks + reservations at every observation point (so wait_for_all returns exactly at idle). '
+             'A reset_reuse family drives each node into a mid-protocol state (forwarder / body task pending, message queued or rejected, item reserved, edge in pull mode), cancels, lets every '
+             'pending task go through cancel(), calls the real graph::reset() and re-runs the same oracles on the reused node.',
   level_note='Sequential task-bag model: graph tasks and external calls are atomic and run one at a time (the real aggregator runs its handler inline, its concurrent protocol is C13\'s subject); '
              'overlap of a put with a running body or with the forwarding step appears only as a re-entrant call. Not covered: true multi-thread interleavings at one node, async_node, '
-             'multifunction/continue/join/limiter/indexer nodes here (node-local contracts: C15), cycles, priorities (prioritize_task cut), try_put_and_wait, exceptions in bodies, graph.reset(), '
+             'multifunction/continue/join/limiter/indexer nodes here (node-local contracts: C15), cycles, priorities (prioritize_task cut), try_put_and_wait, exceptions in bodies, '
              'the scheduler side of wait_for_all / cancellation (r1::wait, task_group_context: stubbed to their documented contract).')
 OUTSIDE = [
   'true concurrency at a node: two threads inside one node at once (aggregator hand-off, spin_rw_mutex of the successor caches, spin_mutex of input_node); only sequential images (re-entrant puts) are explored',
   'async_node / gateways, multifunction_node, continue_node, join / limiter / indexer / sequencer / priority_queue / overwrite nodes (node contracts are C15), composite_node, cycles and limiter feedback loops',
-  'node priorities (prioritize_task is cut and asserted unused), try_put_and_wait / message_metainfo (preview macro off), exceptions thrown by bodies (units compiled with -fno-exceptions), graph::reset, node destruction',
+  'node priorities (prioritize_task is cut and asserted unused), try_put_and_wait / message_metainfo (preview macro off), exceptions thrown by bodies (units compiled with -fno-exceptions), node destruction; graph::reset only after all tasks were cancelled and finalized (its documented precondition), '
+  'rf_reset_bodies / rf_clear_edges only for function_node',
   'the scheduler: r1::wait / r1::submit / arena attachment / task_group_context cancellation are stubs with their documented contract (wait returns iff the wait context count is 0; cancelled tasks get cancel() instead of execute())',
   'topologies other than one node with harness neighbours and the chain queue_node -> function_node; message types other than int; more than 5 messages / 16 tasks per run',
 ]
@@ -164,6 +178,7 @@ STUBS = [
   'r1::execution_slot(arena): slot 0 for the worker that runs tasks (and for the external thread when EXTIN), slot_id(-1) otherwise',
   'r1::get_thread_reference_vertex: one real d1::reference_vertex per model thread with the graph wait vertex as parent (what src/tbb/task.cpp creates on first use)',
   'r1::notify_waiters: no-op (wake-up only); r1::cache_aligned_allocate: malloc; operator new: typed pools; std::list hook/unhook: documented semantics',
+  'r1::reset(task_group_context&): counted no-op (the harness keeps the cancellation state); r1::attach / initialize / terminate(task_arena_base&) in graph::prepare_task_arena: no arena in the model',
   'd2::prioritize_task: identity for tasks without priority (asserted); graph object built white-box (no arena / context objects; my_is_active = true)',
   'harness receivers / senders: accept or reject by pattern, answer register_predecessor by pattern, pull with try_get / try_reserve and hand the edge back when a pull fails (documented protocol of predecessor_cache)',
 ]
